@@ -31,9 +31,17 @@ Fixpoint insert_desc (x : T) (l : list T) : list T :=
   match l with [] => [x] | y :: r => if nltb o x y then y :: insert_desc x r else x :: l end.
 Fixpoint sort_desc (l : list T) : list T :=
   match l with [] => [] | x :: r => insert_desc x (sort_desc r) end.
-(* np.concatenate([zeros, np.cumsum(u_abs_sorted, axis=1)], axis=1) : [0; a1; a1+a2; ...], length h+1 *)
-Fixpoint cumsum_from (acc : T) (l : list T) : list T :=
-  match l with [] => [acc] | x :: r => acc :: cumsum_from (nadd o acc x) r end.
+(* np.sort(x, axis=1) without the reversal: ascending order (only the regenerated code of Gen/ProxGen.v
+   refers to it, when the source stops reversing) *)
+Fixpoint insert_asc (x : T) (l : list T) : list T :=
+  match l with [] => [x] | y :: r => if nltb o y x then y :: insert_asc x r else x :: l end.
+Fixpoint sort_asc (l : list T) : list T :=
+  match l with [] => [] | x :: r => insert_asc x (sort_asc r) end.
+(* np.cumsum(a, axis=1) : [a1; a1+a2; (a1+a2)+a3; ...], sequential additions *)
+Fixpoint cumsum_acc (acc : T) (l : list T) : list T :=
+  match l with [] => [] | x :: r => nadd o acc x :: cumsum_acc (nadd o acc x) r end.
+Definition np_cumsum (l : list T) : list T :=
+  match l with [] => [] | x :: r => x :: cumsum_acc x r end.
 (* np.sum(<boolean row>) *)
 Fixpoint count_true (l : list bool) : nat :=
   match l with [] => 0 | b :: r => (if b then 1 else 0) + count_true r end.
@@ -53,7 +61,7 @@ Fixpoint count_true (l : list bool) : nat :=
 Definition hier_prox_row (v u : list T) (alpha M : T) : list T * list T :=
   let a := sort_desc (map (nabs o) u) in
   let k := length u in
-  let cs := cumsum_from (n0 o) a in
+  let cs := n0 o :: np_cumsum a in                 (* concatenate([zeros, cumsum(a)]) : length k+1 *)
   let nv := norm2 o v in
   let xs := map (fun sc : nat * T =>
                    let a_s := nsub o alpha (nmul o M (snd sc)) in
